@@ -56,6 +56,15 @@ func (core *JApiCore) drainCurrentScanner() *jerr.JApiError {
 
 // simply decides which function to call based on lexeme type
 func (core *JApiCore) next(lexeme scanner.Lexeme) *jerr.JApiError {
+	if core.currentDirective == nil {
+		switch lexeme.Type() {
+		case scanner.Keyword, scanner.ContextExplicitClosing:
+		default:
+			// a parameter, annotation, body or opening parenthesis which no directive is waiting for
+			return core.japiError(jerr.NoDirectiveForLexeme, lexeme.Begin())
+		}
+	}
+
 	switch lexeme.Type() {
 	case scanner.Keyword:
 		return core.processKeyword(lexeme)
